@@ -102,15 +102,15 @@ func newEng(kind string, prec int) *eng {
 }
 
 func toPathsD(s Paths) clipper.PathsD {
-	out := make(clipper.PathsD, len(s))
+	out := newPathsD(len(s))
 	for i, q := range s {
-		out[i] = make(clipper.PathD, len(q))
+		out[i] = newPathD(len(q))
 		for j, p := range q {
 			out[i][j] = clipper.PointD{X: float64(p[0]), Y: float64(p[1])}
 		}
 		regPathD(out[i])
 	}
-	return out
+	return regPathsD(out)
 }
 
 func fromPathsDScaled(s clipper.PathsD, k float64) Paths {
